@@ -415,6 +415,8 @@ func exprKey(x ast.Expr) string {
 		return exprKey(v.Fun) + "(" + strings.Join(as, ",") + ")"
 	case *ast.ParenExpr:
 		return exprKey(v.X)
+	case *ast.BinaryExpr:
+		return exprKey(v.X) + v.Op.String() + exprKey(v.Y)
 	}
 	return "?"
 }
@@ -1187,4 +1189,8 @@ func main() {
 	e.readCode(outdir)
 	e.acceptCode(outdir)
 	e.writeCode(outdir)
+	e.negoCode(outdir)
+	e.dialCode(outdir)
+	e.originCode(outdir)
+	e.closePayloadCode(outdir)
 }
